@@ -33,12 +33,12 @@ Sch == XShape(shape)
 ME == IF shape \in Wide THEN MaxEntries ELSE 2
 TheOpt == [odd |-> Odd, lrun |-> LRun, call |-> CacheAll]
 VTs == IF shape \in StateShapes THEN {"all", "none", "state", "config"} ELSE {"all"}
-MCInit == shape \in Shapes /\ phase = "pick" /\ inp = [d |-> << >>, vt |-> "all"] /\ st = Init(<< >>, << >>)
+MCInit == shape \in Shapes /\ phase = "pick" /\ inp = [d |-> << >>, vt |-> "all"] /\ st = Init
 Pick == /\ phase = "pick" /\ phase' = "adapter" /\ UNCHANGED shape
-        /\ \E d \in DataTrees(Sch, ME, MaxLL), vt \in VTs : inp' = [d |-> d, vt |-> vt] /\ st' = Init(Sch, d)
+        /\ \E d \in DataTrees(Sch, ME, MaxLL), vt \in VTs : inp' = [d |-> d, vt |-> vt] /\ st' = Init
 Look == phase = "adapter" /\ phase' = "run" /\ UNCHANGED <<shape, inp, st>>
 Step == /\ phase = "run" /\ ~Done(st) /\ UNCHANGED <<shape, phase, inp>>
-        /\ \E n \in Choices(st) : st' = StepWith(st, n, inp.vt, TheOpt)
+        /\ \E n \in Choices(st) : st' = StepWith(RootX(Sch, inp.d), st, n, inp.vt, TheOpt)
 Finish == phase = "run" /\ Done(st) /\ phase' = "done" /\ UNCHANGED <<shape, inp, st>>
 MCNext == Pick \/ Look \/ Step \/ Finish
 MCSpec == MCInit /\ [][MCNext]_vars /\ WF_vars(MCNext)
